@@ -7,7 +7,9 @@ from pdb2sql import pdb2sql
 ID = 'C02'
 LEVEL = 'proof'
 CLUSTER = 'A'
-GEN_UNITS = ['_format_atomname', '_format_xyz', 'data2pdb_line', '_format_pdb_linelength', '_get_chainID', '_get_element', 'record_loop']
+GEN_UNITS = ['_format_atomname', '_format_xyz', 'data2pdb_line', '_format_pdb_linelength', '_get_chainID', '_get_element', 'record_loop',
+             'fx_data2pdb', 'fx_sql2pdb', 'fx_exportpdb']
+EXTRA_TARGETS = ['PdbVerif.Driver.MainF']          # fxTie: the translated exportpdb / sql2pdb are run by the cluster-F driver
 RULE = ('one table row per case, values drawn over exactly the quantified ranges: serial [-9999,99999], resSeq [-999,9999], names of 1-4 '
         'characters (leading digit or not, equal to the element or not), 0-1 character altLoc/chain/iCode, 1-3 character residue names, '
         '1-2 character elements, occupancy/B-factor in [-99.99,999.99], coordinates log-uniform over (-1e7,1e8) plus EVERY multiple of '
@@ -319,6 +321,76 @@ def canonical_line(rng):
         rng.choice([' ', 'B']), rng.uniform(-999, 9999), rng.uniform(-999, 9999), rng.uniform(-999, 9999), rng.uniform(0, 1), rng.uniform(0, 99), el)
 
 
+
+# ===== fxTie: translated exportpdb / sql2pdb (Gen/Fx.lean) vs the real calls =========================================
+def fx_tie_checks(ctx):
+    """implementation = generated: `exportpdb(fname, append)` and `sql2pdb()` of a real database are compared with the TRANSLATED
+    programs (GenF.exportpdb / GenF.sql2pdb, driver op fx_run of cluster F) on the same rows: the column string handed to `get`,
+    the open mode, the text left in the file (fresh file, overwrite, append onto existing text) and the lines."""
+    import vlib
+    rng = ctx.rng
+    d = ctx.tmpdir()
+    recs, lines = [], []
+    for k in range(ctx.scale(24, 200)):
+        rows = [gen_row(rng) for _ in range(rng.randint(0, 5))]
+        rows = [r for r in rows if r[4] != '' and all(-9999999.4 < v < 99999999.4 for v in r[7:10])]
+        db = pdb2sql([DUMMY] * len(rows)) if rows else pdb2sql([DUMMY])
+        if rows:
+            db.update(COLS, [r[:13] for r in rows])
+        stored = db.get(COLS + ',model')
+        asked = []
+        orig_get = db.get
+        db.get = lambda cols, **kw: (asked.append(cols), orig_get(cols, **kw))[1]
+        fn = os.path.join(d, 'fx_%d.pdb' % k)
+        old = rng.choice([None, '', 'REMARK old text\n', 'no newline at the end'])
+        if old is not None:
+            open(fn, 'w').write(old)
+        append = rng.random() < 0.5
+        use_default = (not append) and rng.random() < 0.5
+        try:
+            real_lines = db.sql2pdb()
+            if use_default:
+                db.exportpdb(fn)
+            else:
+                db.exportpdb(fn, append=append)
+            outcome = 'ok'
+        except Exception as e:          # noqa
+            real_lines, outcome = None, exc_tag(e)
+        text = open(fn).read() if os.path.exists(fn) else None
+        db._close()
+        jrows = [[r[0], r[1], r[2], r[3], r[4], r[5], r[6], rat(r[7]), rat(r[8]), rat(r[9]), rat(r[10]), rat(r[11]), r[12], r[13]] for r in stored]
+        line = {'op': 'fx_run', 'fn': 'exportpdb', 'fname': 'F', 'rows': jrows, 'files': [] if old is None else [['F', [old]]]}
+        if not use_default:
+            line['append'] = append
+        recs.append({'line': line, 'text': text, 'outcome': outcome, 'asked': asked, 'mode': 'a' if append else 'w', 'lines': real_lines})
+        lines.append(line)
+        lines.append({'op': 'fx_run', 'fn': 'sql2pdb', 'rows': jrows})
+    answers = vlib.run_driver(lines, which='model', cluster='F')
+    bad = None
+    for i, r in enumerate(recs):
+        m = answers[2 * i].get('model') or {}
+        m2 = answers[2 * i + 1].get('model') or {}
+        why = None
+        ev = m.get('events', [])
+        files = {f[0]: f[1] for f in m.get('files', [])}
+        if answers[2 * i].get('driver_error') or answers[2 * i + 1].get('driver_error'):
+            why = 'driver error ' + str(answers[2 * i])[:200]
+        elif (m.get('outcome') == 'ok') != (r['outcome'] == 'ok'):
+            why = 'outcome: real %s translated %s' % (r['outcome'], m.get('outcome'))
+        elif not ev or ev[0] != ['open', 'F', r['mode']]:
+            why = 'first call: real open(fname, %r) translated %s' % (r['mode'], ev[:1])
+        elif files.get('F') != r['text']:
+            why = 'text left in the file: real %r translated %r' % (r['text'], files.get('F'))
+        elif r['outcome'] == 'ok' and (set(r['asked']) != {m['value']['cols']}):
+            why = 'columns asked of get: real %r translated %r' % (r['asked'], m['value']['cols'])
+        elif r['lines'] is not None and m2.get('lines') != r['lines']:
+            why = 'sql2pdb lines: real %r translated %r' % (r['lines'], m2.get('lines'))
+        if why and bad is None:
+            bad = {'line': r['line'], 'why': why}
+    return [{'name': 'translated exportpdb / sql2pdb (GenF) = the real calls: open mode, column string, lines, text left in the file (%d files)' % len(recs),
+             'ok': bad is None, 'case': bad, 'detail': 'implementation and generated program disagree'}]
+# ===== end fxTie ===================================================================================================
+
 def extra_checks(ctx):
     res = []
     rng = ctx.rng
@@ -415,4 +487,5 @@ def extra_checks(ctx):
         stats[os.path.basename(f)] = f'{ncan}/{len(recs)} canonical records reproduced'
         res.append({'name': f'canonical records of {os.path.basename(f)} reproduced in columns 1-66 and 77-78 ({ncan}/{len(recs)} canonical)',
                     'ok': bad is None, 'case': bad, 'detail': 'a canonical ATOM record is not reproduced unchanged'})
+    res += fx_tie_checks(ctx)                       # fxTie
     return res
